@@ -228,41 +228,55 @@ def r1b_regime_selectors(ctx):
               None if ok else f"`{ast.unparse(sel[0][0])[:80]}` depends on h: replacing e^(lambda h) by 1 accumulates an error |lambda| t that does not shrink "
                               "with h, so a cut-off scaled by h turns slow (non-rigid) modes into pure integrators",
               key="C01-R1b|_get_complex_su_coefs|selector")
+    # a store that sits behind a test on *all* eigenvalues (np.all(x) with x true for the generic one) is reached or not depending on the other
+    # eigenvalues: both outcomes occur for some system, so the coefficients are examined under each of them
+    variants = [("", el, rbv)]
+    if ev_el.skipped or ev_rb.skipped:
+        variants = []
+        for others, sfx in ((True, " [when the test on all eigenvalues holds]"), (False, " [when another eigenvalue fails the test on all eigenvalues]")):
+            el_, e1 = run_complex_coefs(ctx, fn2, "el", others)
+            rb_, e2 = run_complex_coefs(ctx, fn2, "rbl", others)
+            variants.append((sfx, el_, rb_))
+
     # rigid-body overrides are the lambda -> 0 limits of the elastic formulas (DESIGN C01-R1(e))
     def good(v):
         return v is not None and not is_unknown(v) and isinstance(v, F.Rat)
-    for nm in ("Ae", "Be"):
-        if not good(el.get(nm)) or not good(rbv.get(nm)):
-            ctx.error(f"_get_complex_su_coefs: {nm}", fn2, {"elastic": repr(el.get(nm))[:200], "rigid": repr(rbv.get(nm))[:200]})
-            continue
-        sr = F.series(el[nm], "lam", 0)
-        ok = sr.val >= 0 and sr.coef(0).equals(rbv[nm])
-        ctx.check(ok, f"_get_complex_su_coefs: the rigid-body override of {nm} is the lambda->0 limit of the elastic formula", fn2,
-                  None if ok else {"limit": repr(sr.coef(0)) if sr.val >= 0 else "singular", "override": repr(rbv[nm])})
-    if good(el.get("Ae")) and good(el.get("Be")):
-        E = F.exp(lam * h)
-        ok = (el["Ae"] + el["Be"]).equals((E - 1) / lam)
-        ctx.check(ok, "_get_complex_su_coefs: Ae + Be = (e^(lambda h) - 1)/lambda (constant-force integral)", fn2)
-        # Be = int_0^h e^{lam (h - t)} t/h dt = (e^{lam h} - 1 - lam h)/(lam^2 h)
-        ok = el["Be"].equals((E - 1 - lam * h) / (lam * lam * h))
-        ctx.check(ok, "_get_complex_su_coefs: Be = (e^(lambda h) - 1 - lambda h)/(lambda^2 h) (ramp-force integral)", fn2,
-                  None if ok else repr(el["Be"]))
-    Fe = el.get("Fe")
-    ok = good(Fe) and Fe.equals(F.exp(lam * h))
-    ctx.check(ok, "_get_complex_su_coefs: Fe = e^(lambda h)", fn2, None if ok else repr(Fe))
-    if good(rbv.get("Fe")):
-        ctx.check(rbv["Fe"].equals(1), "_get_complex_su_coefs: the rigid-body override of Fe is 1", fn2)
-    else:
-        ctx.error("_get_complex_su_coefs: Fe of a near-zero eigenvalue", fn2, repr(rbv.get("Fe")))
+    for sfx, el, rbv in variants:
+        for nm in ("Ae", "Be"):
+            if not good(el.get(nm)) or not good(rbv.get(nm)):
+                ctx.error(f"_get_complex_su_coefs: {nm}{sfx}", fn2, {"elastic": repr(el.get(nm))[:200], "rigid": repr(rbv.get(nm))[:200]})
+                continue
+            sr = F.series(el[nm], "lam", 0)
+            ok = sr.val >= 0 and sr.coef(0).equals(rbv[nm])
+            ctx.check(ok, f"_get_complex_su_coefs: the rigid-body override of {nm} is the lambda->0 limit of the elastic formula{sfx}", fn2,
+                      None if ok else {"limit": repr(sr.coef(0)) if sr.val >= 0 else "singular", "override": repr(rbv[nm])})
+        if good(el.get("Ae")) and good(el.get("Be")):
+            E = F.exp(lam * h)
+            ok = (el["Ae"] + el["Be"]).equals((E - 1) / lam)
+            ctx.check(ok, f"_get_complex_su_coefs: Ae + Be = (e^(lambda h) - 1)/lambda (constant-force integral){sfx}", fn2)
+            # Be = int_0^h e^{lam (h - t)} t/h dt = (e^{lam h} - 1 - lam h)/(lam^2 h)
+            ok = el["Be"].equals((E - 1 - lam * h) / (lam * lam * h))
+            ctx.check(ok, f"_get_complex_su_coefs: Be = (e^(lambda h) - 1 - lambda h)/(lambda^2 h) (ramp-force integral){sfx}", fn2,
+                      None if ok else repr(el["Be"]))
+        Fe = el.get("Fe")
+        ok = good(Fe) and Fe.equals(F.exp(lam * h))
+        ctx.check(ok, f"_get_complex_su_coefs: Fe = e^(lambda h){sfx}", fn2, None if ok else repr(Fe))
+        if good(rbv.get("Fe")):
+            ctx.check(rbv["Fe"].equals(1), f"_get_complex_su_coefs: the rigid-body override of Fe is 1{sfx}", fn2)
+        else:
+            ctx.error(f"_get_complex_su_coefs: Fe of a near-zero eigenvalue{sfx}", fn2, repr(rbv.get("Fe")))
     # get_su_eig rigid-body constants equal the undamped rb coefficient set with m = 1:  G = h, A = h^2/3, Ap = h/2
     fn3 = ctx.src.func(SOLVEUNC, "SolveUnc.get_su_eig")
     H_ = F.sym("<step>")         # not the name of a plausible local: an unbound `h` must not be mistaken for self.h
     S = Sem01(ctx, fn3, env={"self.h": H_}, truth={"<step>": True, "self.rbsize": True, "self.elsize": True}, nonnull={"<step>"})
     ret = S.ret()
+    from .c01_ev import DictV
     roots = [k for k, v in S.ev.env.items() if "." not in k and isinstance(v, F.Rat) and isinstance(ret, F.Rat) and v.equals(ret) and unsym(v) is None]
     want = {"G": H_, "A": H_ * H_ / 3, "Ap": H_ / 2}
     for nm, w in want.items():
         v = None
+        if isinstance(ret, DictV):          # the returned namespace object itself (fields set directly, through setattr or by a helper)
+            v = S.ev.plain(ret.d.get(nm))
         for r in roots:
             v = S.ev.env.get(f"{r}.{nm}", v)
         ok = v is not None and not is_unknown(v) and isinstance(v, F.Rat) and v.equals(w)
@@ -306,7 +320,9 @@ def r3_partition_typing(ctx):
         if isinstance(st, ast.Assign) and isinstance(st.targets[0], ast.Attribute) and st.targets[0].attr in want:
             t = T.ty(st.value)
             nm = st.targets[0].attr
-            ok = isinstance(t, Arr) and t.r == want[nm]
+            if not isinstance(t, Arr) or t.r is None or None in tuple(t.r):
+                continue          # not resolved by the typer (selection in steps, named slices ...): decided on values by C01-R9
+            ok = t.r == want[nm]
             ctx.check(ok, f"SolveExp2.__init__: self.{nm} is the ({want[nm][0]}, {want[nm][1]}) block of E for the [v; d] state of _build_A", st,
                       None if ok else repr(t), key=f"C01-R5|SolveExp2.__init__|{nm}")
     # the [v; d] layout itself: _build_A puts the velocity equations in rows :n (A[v2, v1] = 1 is d' = v) - read from the stores into the returned matrix
@@ -631,7 +647,7 @@ def r6_equilibrium_acceleration(ctx):
             ctx.error(f"_calc_acce_kdof ({name}): acceleration store not lowered", fn, repr(got)[:400])
             continue
         ok, detail = _hist_steps(ctx, "", fn, got, wantc, ("acceleration",))
-        ctx.check(ok, f"_calc_acce_kdof ({name}): a = M^-1 (F - B v - K d) with the full damping matrix", fn, detail)
+        _hcheck(ctx, ok, f"_calc_acce_kdof ({name}): a = M^-1 (F - B v - K d) with the full damping matrix", fn, detail)
     # the zero-diagonal remainder: _chk_diag_part (coupled damping carried as a force: m None, b 2-D and not diagonal, k 1-D, cd_as_force) must publish
     # self.b = diag(b) and self.bo = b - dd(b), both restricted to the non-rf equations when there are rf modes
     cd = ctx.src.func(BASEF, "_BaseODE._chk_diag_part")
@@ -794,12 +810,22 @@ def r7_subspace_typing(ctx):
 
 
 def _hist_steps(ctx, label, where, got_cols, want_cols, names):
-    """compare the computed columns of a generic history with the documented recurrence, column by column; -> (ok, detail)"""
+    """compare the computed columns of a generic history with the documented recurrence, column by column; -> (ok, detail) with ok True / False, or
+    None when a computed column is not a formula (a construct the evaluator could not lower: reported as ANALYSIS-ERROR, never as a violation)"""
     for j, (got, want) in enumerate(zip(got_cols, want_cols)):
         for g, w, nm in zip(got, want, names):
-            if g is None or is_unknown(g) or isinstance(g, tuple) or not isinstance(g, F.Rat) or not g.equals(w):
+            if g is None or is_unknown(g) or isinstance(g, tuple) or not isinstance(g, F.Rat):
+                return None, {"sample": j, "quantity": nm, "not lowered": repr(g)[:300], "recurrence": repr(w)[:300]}
+            if not g.equals(w):
                 return False, {"sample": j, "quantity": nm, "computed": repr(g)[:300], "recurrence": repr(w)[:300]}
     return True, None
+
+
+def _hcheck(ctx, ok, label, where, detail=None):
+    if ok is None:
+        ctx.error(label + ": the computed history was not lowered", where, detail)
+    else:
+        ctx.check(ok, label, where, detail)
 
 
 def r8_solveexp1(ctx):
@@ -848,12 +874,12 @@ def r8_solveexp1(ctx):
                 y = E_ * y + P_ * f[j - 1] + (Q_ * f[j] if order == 1 else 0)
                 want.append(y)
             ok0, _ = _hist_steps(ctx, tag, ts, [(dcols[0],)], [(want[0],)], ("y",))
-            ctx.check(ok0, f"{tag}: the first column is the initial state" + ("" if given else " (zero)"), ts, None if ok0 else repr(dcols[0])[:200])
+            _hcheck(ctx, ok0, f"{tag}: the first column is the initial state" + ("" if given else " (zero)"), ts, None if ok0 else repr(dcols[0])[:200])
             ok, detail = _hist_steps(ctx, tag, ts, [(c,) for c in dcols], [(w,) for w in want], ("y",))
-            ctx.check(ok, f"{tag}: y_j = E y_j-1 + P f_j-1" + (" + Q f_j" if order == 1 else "") + " for every step of a generic history", ts, detail)
+            _hcheck(ctx, ok, f"{tag}: y_j = E y_j-1 + P f_j-1" + (" + Q f_j" if order == 1 else "") + " for every step of a generic history", ts, detail)
             vv = ns[0][2].get("v")
             ok = isinstance(vv, tuple) and len(vv) == NT and all(S.same(x, fk + A_ * w) for x, fk, w in zip(vv, f, want))
-            ctx.check(ok, f"SolveExp1.tsolve (order {order}): returns d and v = f + A d (the first-order equation itself)", ns[0][3], None if ok else repr(vv)[:300])
+            _hcheck(ctx, ok, f"SolveExp1.tsolve (order {order}): returns d and v = f + A d (the first-order equation itself)", ns[0][3], None if ok else repr(vv)[:300])
 
 
 def _size_cmp(*names):
@@ -892,6 +918,45 @@ def _lu_call(node, ev):
     return NotImplemented
 
 
+def _block2(v):
+    """(base, row selector, column selector) of a 2-D selection written in one subscript or in steps: X[r, c], X[r][:, c], X[:, c][r], X[r, :][:, c],
+    X[np.ix_(r, c)] ... - a full slice is the identity on its axis; selections are only merged when at most one of them restricts the axis (no slice
+    arithmetic).  A value that is no selection is (v, full, full)."""
+    from .sem import unfn
+    NONE_ = F.sym("None")
+    full = F.fn("slice", NONE_, NONE_, NONE_)
+
+    def sliceish(x):
+        u = unfn(x)
+        return bool(u) and u[0] == "slice"
+    rows, cols = full, full
+    while isinstance(v, F.Rat):
+        u = unfn(v)
+        if not u or u[0] != "idx" or len(u[1]) != 2 or any(isinstance(x, str) for x in u[1]):
+            break
+        base, ix = u[1]
+        ui = unfn(ix)
+        if ui and ui[0] == "tuple":
+            if len(ui[1]) != 2 or any(isinstance(x, str) for x in ui[1]):
+                break
+            r, c = ui[1]
+        elif ui and ui[0] == "call:np.ix_" and len(ui[1]) == 2 and not any(isinstance(x, str) for x in ui[1]) and rows.equals(full) and cols.equals(full):
+            r, c = ui[1]
+            rows, cols, v = r, c, base
+            continue
+        else:
+            r, c = ix, full
+        if not (sliceish(r) and sliceish(c)):
+            break         # an integer / index array changes the shape or pairs with the other axis: not merged
+        # (r, c) is applied first, (rows, cols) afterwards
+        if not (r.equals(full) or rows.equals(full)) or not (c.equals(full) or cols.equals(full)):
+            break
+        rows = rows if r.equals(full) else r
+        cols = cols if c.equals(full) else c
+        v = base
+    return v, rows, cols
+
+
 def r9_solveexp2(ctx):
     """Second-order exact solver in state-space form z = [v; d], z' = A z + [M^-1 f; 0]: the constructor cuts E = expm(A h) into the four blocks
     E_vv, E_vd, E_dv, E_dd by the [v; d] layout, and tsolve advances d_i+1 = E_dd d_i + E_dv v_i + (P g_i + Q g_i+1)_d,
@@ -927,10 +992,37 @@ def r9_solveexp2(ctx):
     half = {"v": S0.ev._index_value(ast.parse("x[:ksize]", mode="eval").body.slice), "d": S0.ev._index_value(ast.parse("x[ksize:]", mode="eval").body.slice)}
     for nm, (r, c) in want.items():
         got = S0.env(f"self.{nm}")
-        w = F.fn("idx", F.sym("E"), F.fn("tuple", half[r], half[c]))
-        ok = got is not None and not is_unknown(got) and not isinstance(got, tuple) and need(got).equals(w)
-        ctx.check(ok, f"SolveExp2.__init__: {nm} is the block of E that maps the {('velocity' if c == 'v' else 'displacement')} half of the state to the "
-                      f"{('velocity' if r == 'v' else 'displacement')} half (state layout [v; d]: rows/columns :ksize are velocities)", init, None if ok else repr(got))
+        label = (f"SolveExp2.__init__: {nm} is the block of E that maps the {('velocity' if c == 'v' else 'displacement')} half of the state to the "
+                 f"{('velocity' if r == 'v' else 'displacement')} half (state layout [v; d]: rows/columns :ksize are velocities)")
+        if got is None or is_unknown(got) or isinstance(got, tuple) or not isinstance(got, F.Rat):
+            ctx.check(False, label, init, repr(got))
+            continue
+        # decided on the selection itself: one subscript or several, slices / ranges, `ksize:` or `ksize:2*ksize`
+        base, rs, cs = _block2(got)
+        def half_k(sel, K=F.sym("ksize")):
+            """which half of an axis of length 2 K a selector takes: 'first' / 'second' / 'other'; None when it is not a slice / range"""
+            hv = _half(sel)
+            if hv is None:
+                return None
+            if hv[0] != "other" and hv[1] is not None and hv[1].equals(K):
+                return hv[0]
+            if hv[0] != "other" and hv[1] is not None and hv[1].equals(-K):
+                u_ = unfn_(sel)          # on an axis of length 2 K, `:-K` is the first half and `-K:` the second
+                if u_[0] == "slice" and sum(1 for x in u_[1] if x.equals(F.sym("None"))) == 2:
+                    return hv[0]
+            return "other"
+        from .sem import unfn as unfn_
+        hr, hc = half_k(rs), half_k(cs)
+        wantrc = ({"v": "first", "d": "second"}[r], {"v": "first", "d": "second"}[c])
+        if base.equals(F.sym("E")) and hr is not None and hc is not None:
+            ok = (hr, hc) == wantrc
+            ctx.check(ok, label, init, None if ok else repr(got))
+        elif need(got).equals(F.fn("idx", F.sym("E"), F.fn("tuple", half[r], half[c]))):
+            ctx.ok(label, init)
+        elif not got.depends_on("E"):
+            ctx.check(False, label, init, repr(got))
+        else:
+            ctx.error(label + ": the selection was not recognised as a block of E", init, repr(got)[:300])
     ok = S0.same(S0.env("self.P"), F.sym("P")) and S0.same(S0.env("self.Q"), F.sym("Q"))
     ctx.check(ok, "SolveExp2.__init__: P and Q are stored under their own names", init)
     # a system without dynamic equations (every mode statically solved: ksize = 0) has no state matrix: the exponential must not be requested
@@ -984,9 +1076,9 @@ def r9_solveexp2(ctx):
                     dprev, vprev = wd, wv
                 ok, detail = _hist_steps(ctx, "", ts, [(db.get(i), vb.get(i)) for i in range(NT)], wantc, ("displacement", "velocity"))
                 if ok and (d.bad or v.bad):
-                    ok, detail = False, {"accesses not modelled": (d.bad + v.bad)[:4]}
+                    ok, detail = None, {"accesses not modelled": (d.bad + v.bad)[:4]}
                 lay = "contiguous partitions" if slices else "interleaved partitions: row blocks are copies, written back"
-                ctx.check(ok, f"SolveExp2.tsolve (order {order}, m {mcase}, {lay}): d and v follow z_i+1 = E z_i + P g_i" + (" + Q g_i+1" if order == 1 else "")
+                _hcheck(ctx, ok, f"SolveExp2.tsolve (order {order}, m {mcase}, {lay}): d and v follow z_i+1 = E z_i + P g_i" + (" + Q g_i+1" if order == 1 else "")
                           + " block by block (g = M^-1 f) on a generic history", ts, detail)
 
 
@@ -1038,9 +1130,9 @@ def r10_real_unc_batch(ctx):
                 dp, vp = wd, wv
             ok, detail = _hist_steps(ctx, "", fn, [(db.get(i), vb.get(i)) for i in range(NT)], want, ("displacement", "velocity"))
             if ok and (d.bad or v.bad):
-                ok, detail = False, {"accesses not modelled": (d.bad + v.bad)[:4]}
+                ok, detail = None, {"accesses not modelled": (d.bad + v.bad)[:4]}
             lay = "contiguous partitions" if slices else "interleaved partitions: row blocks are copies, written back"
-            ctx.check(ok, f"SolveUnc._solve_real_unc (order {order}, {lay}): every step of a generic history is F d + G v + A f_i-1 + B f_i (and the primed "
+            _hcheck(ctx, ok, f"SolveUnc._solve_real_unc (order {order}, {lay}): every step of a generic history is F d + G v + A f_i-1 + B f_i (and the primed "
                           "twin), with pc.F ... pc.Bp in the positions of the loop function's parameters", fn, detail)
 
 
@@ -1087,12 +1179,12 @@ def r11_complex_unc_batch(ctx):
                     dp, vp = wd, wv
                 ok, detail = _hist_steps(ctx, "", fn, [(db.get(i), vb.get(i)) for i in range(NT)], want, ("displacement", "velocity"))
                 lay = "" if slices else " (interleaved partitions: the rigid-body row blocks are copies, written back)"
-                ctx.check(ok, f"{tag}: rigid-body part is the exact double integration of the held modal acceleration g = M_rb^-1 f on a generic history" + lay,
+                _hcheck(ctx, ok, f"{tag}: rigid-body part is the exact double integration of the held modal acceleration g = M_rb^-1 f on a generic history" + lay,
                           fn, detail)
             d, v, a, S = runs[True]
             ab = a.block(repr(RB), RB)
             ok, detail = _hist_steps(ctx, "", fn, [(ab.get(i),) for i in range(NT)], [(x,) for x in g], ("acceleration",))
-            ctx.check(ok, f"{tag}: rigid-body acceleration is M_rb^-1 f at every sample", fn, detail)
+            _hcheck(ctx, ok, f"{tag}: rigid-body acceleration is M_rb^-1 f at every sample", fn, detail)
             # elastic part
             w_ = tuple(pc("ur_inv_v") * (IM * F.fn("idx", x, KD)) for x in f)
             y0w = pc("ur_inv_v") * v.initial(repr(KD), KD, 0) + pc("ur_inv_d") * d.initial(repr(KD), KD, 0)
@@ -1103,9 +1195,9 @@ def r11_complex_unc_batch(ctx):
             if len(ys) == 1:
                 yb = ys[0].root()
                 ok, detail = _hist_steps(ctx, "", fn, [(yb.get(0),)], [(yw[0],)], ("modal state",))
-                ctx.check(ok, f"{tag}: modal state y_0 = ur_inv_v v_0 + ur_inv_d d_0 (state layout [v; d])", fn, detail)
+                _hcheck(ctx, ok, f"{tag}: modal state y_0 = ur_inv_v v_0 + ur_inv_d d_0 (state layout [v; d])", fn, detail)
                 ok, detail = _hist_steps(ctx, "", fn, [(yb.get(i),) for i in range(NT)], [(x,) for x in yw], ("modal state",))
-                ctx.check(ok, f"{tag}: y_i+1 = Fe y_i + Ae w_i + Be w_i+1 with w = ur_inv_v M^-1 f on a generic history", fn, detail)
+                _hcheck(ctx, ok, f"{tag}: y_i+1 = Fe y_i + Ae w_i + Be w_i+1 with w = ur_inv_v M^-1 f on a generic history", fn, detail)
             else:
                 yb = None
             if systype == "float":
@@ -1116,12 +1208,12 @@ def r11_complex_unc_batch(ctx):
             db, vb = d.block(repr(KD), KD), v.block(repr(KD), KD)
             ok, detail = _hist_steps(ctx, "", fn, [(db.get(i), vb.get(i)) for i in range(1, NT)], wantdv, ("displacement", "velocity"))
             if ok and (d.bad or v.bad):
-                ok, detail = False, {"accesses not modelled": (d.bad + v.bad)[:4]}
+                ok, detail = None, {"accesses not modelled": (d.bad + v.bad)[:4]}
             if yb is None:
                 # no separate modal-state array to read: the two modal obligations are decided through the recovered d, v
-                ctx.check(ok, f"{tag}: modal state y_0 = ur_inv_v v_0 + ur_inv_d d_0 (state layout [v; d])", fn, detail)
-                ctx.check(ok, f"{tag}: y_i+1 = Fe y_i + Ae w_i + Be w_i+1 with w = ur_inv_v M^-1 f on a generic history", fn, detail)
-            ctx.check(ok, f"{tag}: d = ur_d y and v = ur_v y on the dynamic equations" +
+                _hcheck(ctx, ok, f"{tag}: modal state y_0 = ur_inv_v v_0 + ur_inv_d d_0 (state layout [v; d])", fn, detail)
+                _hcheck(ctx, ok, f"{tag}: y_i+1 = Fe y_i + Ae w_i + Be w_i+1 with w = ur_inv_v M^-1 f on a generic history", fn, detail)
+            _hcheck(ctx, ok, f"{tag}: d = ur_d y and v = ur_v y on the dynamic equations" +
                       (" (real part taken as rur Re y - iur Im y)" if systype == "float" else ""), fn, detail)
 
 
